@@ -669,6 +669,54 @@ func (g *vsGen) validPlan() *state.BackupPlan {
 	return p
 }
 
+// vsRestoreJob builds a valid active restore job: 256 hash slots, supplied in
+// reverse order, with per-slot replica evidence lists that are uniform (tape
+// value 0) or of different lengths: staged out of order, hash slot 0 re-claimed
+// (its list reset while later slots are staged), or sparse.
+func vsRestoreJob(t *simkit.Tape) *state.ScheduledRestoreJob {
+	job := &state.ScheduledRestoreJob{ID: "restore-1", BackupID: "backup-1", Initiator: "ops",
+		Status:            []string{"staging", "verifying", "maintenance"}[t.Intn(3)],
+		StartedUnixMillis: 100, DeadlineUnixMillis: 200, UpdatedUnixMillis: 100 + int64(t.Intn(50)),
+		MaintenanceEntered: t.Intn(2) == 1, PreviousActivation: "act-1", TargetActivation: "act-2"}
+	if t.Intn(2) == 1 {
+		job.CancelRequested, job.ErrorCode, job.LogicalBytes, job.MaxMessageID = t.Intn(2) == 1, "replica_lagging", 8192, 4242
+	}
+	shape := t.Intn(4)
+	seed := t.Intn(5)
+	for hs := state.BackupHashSlotCount - 1; hs >= 0; hs-- {
+		w := 2
+		switch shape {
+		case 1:
+			w = (hs*3 + seed) % 4
+		case 2:
+			if hs == 0 {
+				w = 0
+			} else {
+				w = 1 + (hs+seed)%3
+			}
+		case 3:
+			w = 0
+			if hs%16 == seed {
+				w = 3
+			}
+		}
+		sp := state.RestoreSlotProgress{HashSlot: uint16(hs), Status: "pending"}
+		if w > 0 {
+			sp.Status, sp.Attempt, sp.LogicalBytes = "staged", 1, uint64(10*hs)
+			for j := w; j >= 1; j-- { // descending: Normalize must sort
+				sp.ReplicaNodeIDs = append(sp.ReplicaNodeIDs, uint64(j))
+			}
+			sp.UpdatedUnixMillis = int64(110 + hs%7)
+		} else if hs == 0 && shape == 2 {
+			sp.Status, sp.Attempt = "staging", 2
+		} else if hs == 200+seed {
+			sp.Status, sp.Attempt, sp.ErrorCode = "failed", 1, "stage_failed"
+		}
+		job.Slots = append(job.Slots, sp)
+	}
+	return job
+}
+
 func (g *vsGen) genBackup(cmd *command.Command, meta *vsMeta, cur state.ClusterState, variant int) {
 	sb := &state.ScheduledBackupState{Revision: uint64(1 + g.t.Intn(4)), ManagerSessionEpoch: uint64(g.t.Intn(3))}
 	if g.t.Intn(4) != 3 {
@@ -677,24 +725,46 @@ func (g *vsGen) genBackup(cmd *command.Command, meta *vsMeta, cur state.ClusterS
 	for i, n := 0, g.t.Intn(3); i < n; i++ {
 		rec := state.BackupTaskRecord{ID: fmt.Sprintf("h%d", i), Kind: []string{"backup", "restore", "verification", "retention"}[g.t.Intn(4)],
 			Initiator: "ops", Status: "succeeded", StartedUnixMillis: 1000, CompletedUnixMillis: 1000 + int64(g.t.Intn(100))}
+		if g.t.Intn(2) == 1 {
+			rec.Trigger = []state.BackupTrigger{state.BackupTriggerInitial, state.BackupTriggerScheduled, state.BackupTriggerManual}[g.t.Intn(3)]
+			rec.ScheduledUnixMillis, rec.Status, rec.ErrorCode = 900, "failed", "store_unreachable"
+		}
 		sb.History = append(sb.History, rec)
 	}
 	if g.t.Chance(1, 4) {
 		sb.ActiveArchiveOperation = &state.BackupArchiveOperation{Token: "tok", Kind: []string{"verify", "hold", "delete", "retention", "restore"}[g.t.Intn(5)],
 			ArchiveID: "a1", StartedUnixMillis: 10, ExpiresUnixMillis: 20}
+		if g.t.Intn(2) == 1 {
+			sb.ActiveArchiveOperation.CoordinatorNodeID, sb.ActiveArchiveOperation.CoordinatorTerm = 1, uint64(1+g.t.Intn(3))
+		}
 	}
 	if g.bigOK && sb.Plan != nil && g.t.Chance(1, 3) {
 		// active backup: 256 hash-slot entries, supplied in reverse order
 		job := &state.ScheduledBackupJob{ID: "job1", Trigger: state.BackupTriggerManual, Status: state.BackupJobStatusExporting, PlanRevision: 1,
 			StartedAtUnixMillis: 100, DeadlineUnixMillis: 200, UpdatedUnixMillis: 100 + int64(g.t.Intn(50))}
+		if g.t.Intn(2) == 1 {
+			job.Trigger, job.ScheduledAtUnixMillis, job.CancelRequested, job.ErrorCode = state.BackupTriggerScheduled, 90, g.t.Intn(2) == 1, "slow_store"
+			job.LogicalBytes, job.StoredBytes, job.Records = 4096, 2048, 77
+		}
+		pick := g.t.Intn(16)
 		for hs := state.BackupHashSlotCount - 1; hs >= 0; hs-- {
 			sp := state.BackupSlotProgress{HashSlot: uint16(hs), Status: state.BackupSlotStatusPending}
-			if hs%64 == g.t.Intn(64) {
-				sp = state.BackupSlotProgress{HashSlot: uint16(hs), Status: state.BackupSlotStatusRunning, Attempt: 1, OwnerNodeID: 1, OwnerTerm: 2}
+			switch {
+			case hs%16 == pick:
+				sp = state.BackupSlotProgress{HashSlot: uint16(hs), Status: state.BackupSlotStatusRunning, Attempt: 1, OwnerNodeID: 1, OwnerTerm: 2, UpdatedUnixMillis: 120}
+			case hs%16 == (pick+1)%16:
+				sp = state.BackupSlotProgress{HashSlot: uint16(hs), Status: state.BackupSlotStatusComplete, Attempt: 1, OwnerNodeID: 2, OwnerTerm: 2,
+					ManifestKey: fmt.Sprintf("m/%d", hs), ManifestSHA256: strings.Repeat("ab", 32), LogicalBytes: uint64(100 + hs), StoredBytes: uint64(50 + hs), Records: uint64(hs), MaxMessageID: uint64(1000 + hs), UpdatedUnixMillis: 130}
+			case hs%16 == (pick+2)%16 && hs > 128:
+				sp = state.BackupSlotProgress{HashSlot: uint16(hs), Status: state.BackupSlotStatusFailed, Attempt: 2, ErrorCode: "export_failed"}
 			}
 			job.Slots = append(job.Slots, sp)
 		}
 		sb.ActiveBackup = job
+	}
+	if sb.Plan != nil && sb.ActiveBackup == nil && cur.Config.HashSlotCount == state.BackupHashSlotCount && g.t.Chance(1, 3) {
+		// active restore (needs 256 hash slots and an empty task set to be valid)
+		sb.ActiveRestore = vsRestoreJob(g.t)
 	}
 	cmd.ScheduledBackup = sb
 	switch variant {
